@@ -384,3 +384,13 @@ def parallel_map(fn, tasks, nproc=None, max_tasks_per_child=None, ndev=None, tim
 
 def chunked(lst, n):
     return [lst[i:i + n] for i in range(0, len(lst), n)]
+
+
+def repo_src():
+    """Directory of the `precondition` package actually imported (the editable install of /repo, or a
+    scratch worktree put first on PYTHONPATH)."""
+    import importlib.util
+    spec = importlib.util.find_spec("precondition")
+    if spec is None or not spec.submodule_search_locations:
+        raise InfraError("precondition package not importable")
+    return list(spec.submodule_search_locations)[0]
